@@ -628,6 +628,14 @@ func genOp(r *Rand, p *Profile, sc *h.Scenario, cand []*barGen, client int, nWri
 				s += UserLine(client, *nWrites, long)
 			}
 		}
+		if r.Bool(0.012) && !sc.Cont.Terminal {
+			// more than 32 KiB in one call (other clients may be writing at the same time)
+			long := "huge-" + strings.Repeat("0123456789", 8)
+			for len(s) < 34000 {
+				*nWrites++
+				s += UserLine(client, *nWrites, long)
+			}
+		}
 		if r.Bool(0.04) {
 			s = "" // an empty Write is a valid io.Writer call
 		}
